@@ -142,7 +142,7 @@ var checks = map[string]Check{
 	},
 	"C08": {
 		Level:       "model_checking",
-		Rule:        "stateless DFS over all placements (interleavings up to the preemption bound) of Session.Close / Peer.Close relative to handler entry, handler steps, reply write and reply arrival, for a call in flight inbound, outbound or both (raw protocol; inbound and outbound also over json, pb and thrift-binary); event order is part of the explored state; oracle from the event log",
+		Rule:        "stateless DFS over all placements (interleavings up to the preemption bound) of Session.Close / Peer.Close relative to handler entry, handler steps, reply write and reply arrival, for a call in flight inbound, outbound or both, and for an inbound handler that itself calls or pushes to the other side before returning (raw protocol; inbound and outbound also over json, pb and thrift-binary); event order is part of the explored state; oracle from the event log",
 		Assumptions: baseAssumptions,
 		Jobs: func(tier string) []Job {
 			var js []Job
@@ -178,6 +178,16 @@ var checks = map[string]Check{
 					j.Budget = 300
 					js = append(js, j)
 				}
+			}
+			// the running handler itself calls / pushes to the other side before it returns (the reply of that nested
+			// call arrives while Close is waiting for the handler)
+			for _, n := range []string{"call", "push"} {
+				j := sched("c08", "dir=in,closer=session,yields=0,nested="+n, 1, 16)
+				if tier == "thorough" {
+					j.Bound = 2
+					j.Budget = 300
+				}
+				js = append(js, j)
 			}
 			// the other wire protocols (a reply may be written in several pieces)
 			for _, pr := range []string{"json", "pb", "thrift"} {
